@@ -50,9 +50,12 @@ def classify(rec):
     if rec.get("lvl") != "pipe" or not isinstance(got, dict) or not exp:
         return None
     x = got.get("cname")
-    if not x or got.get("odd") or not got.get("qok") or got.get("rcode") != "NOERROR" or got.get("ips"):
+    if not x or got.get("odd") or not got.get("qok") or got.get("ips"):
         return None
-    if got.get("fromup") != x or len(got.get("ask", [])) != 1 or got["ask"][0][0] != x:
+    # (whatever the upstream said about X: its records, or none with its reply code)
+    if got.get("fromup") not in (x, "") or got.get("rcode") not in ("NOERROR", "NXDOMAIN", "SERVFAIL"):
+        return None
+    if len(got.get("ask", [])) != 1 or got["ask"][0][0] != x:
         return None
     for e in exp:
         if e.get("cname") == x and not e.get("ask") and not e.get("ips") and not e.get("fromup"):
@@ -304,7 +307,7 @@ def part_history(ctx, res, tally):
     if len(hdr) != 1 or not states or not edges:
         raise vlib.Inconclusive("edit machine: %d headers, %d states, %d edges" % (len(hdr), len(states), len(edges)))
     acts = {e["act"] for e in edges}
-    if acts != {"add", "del", "upd"} or all(e["ok"] for e in edges):
+    if acts != {"add", "del", "upd", "save"} or all(e["ok"] for e in edges):
         raise vlib.Inconclusive("vacuous edit machine: acts %s" % sorted(acts))
     key = lambda t: json.dumps(t)
     ids = {key(st["t"]): i + 1 for i, st in enumerate(states)}
@@ -421,12 +424,13 @@ def part_trace(ctx, res, tally):
     rc, out, hrows = go_rows(ctx, FPKG, "^TestZZVerifC06HistTrace$", {}, "c06_trace_h.ndjson")
     if rc != 0 or not hrows:
         raise vlib.Inconclusive("C06 history trace driver did not complete:\n" + out[-3000:])
-    if not {"add", "del", "upd"} <= {r["ev"] for r in hrows} or all(r.get("ok", True) for r in hrows):
+    if not {"add", "del", "upd", "save"} <= {r["ev"] for r in hrows} or all(r.get("ok", True) for r in hrows):
         raise vlib.Inconclusive("vacuous history trace")
     rows = frows + prows + hrows
     tpath = ctx.path("c06_trace.ndjson")
     vlib.write_ndjson(tpath, [{k: r[k] for k in ("lvl", "ev", "a", "b", "ok", "list", "qs") if k in r} if r["lvl"] == "hist"
-                              else {"lvl": r["lvl"], "tab": r["tab"], "qs": r["qs"]} for r in rows])
+                              else dict({"lvl": r["lvl"], "tab": r["tab"], "qs": r["qs"]},
+                                        **({"upm": r["upm"]} if r["lvl"] == "pipe" else {})) for r in rows])
     r = ctx.tlc("TraceRewrites", "TraceRewrites.cfg", workers=1, timeout=1500, heap="3g",
                 extra_files=[(tpath, "trace.ndjson")])
     if not r["vectors"]:
@@ -467,7 +471,8 @@ def part_trace(ctx, res, tally):
                 ln["_steps"] = pr_in["steps"]
         else:
             # (pipe: the transition from the table the live server had before is rehearsed too)
-            vlib.write_ndjson(pin, [dict({"tab": ln["tab"], "h": x["h"], "qt": x["qt"], "query": x["query"], "expect": b["exp"]},
+            vlib.write_ndjson(pin, [dict({"tab": ln["tab"], "h": x["h"], "qt": x["qt"], "query": x["query"], "expect": b["exp"],
+                                          "epoch": ln.get("epoch", 0)},
                                          **({"prev_table": ln["prev_table"], "qs": ln.get("prev_qs", [])}
                                             if ln.get("prev_table") is not None else {}))
                                     for b, ln, x in lst])
@@ -486,7 +491,8 @@ def part_trace(ctx, res, tally):
                 b, ln, x = lst[k]
                 life = [{"table": r["table"], "qs": [[q["h"], q["qt"]] for q in r["qs"]]}
                         for r in rows[:b["l"] - 1] if r["lvl"] == "pipe"]
-                pl.append({"tab": ln["tab"], "h": x["h"], "qt": x["qt"], "query": x["query"], "expect": b["exp"], "life": life})
+                pl.append({"tab": ln["tab"], "h": x["h"], "qt": x["qt"], "query": x["query"], "expect": b["exp"], "life": life,
+                           "epoch": ln.get("epoch", 0)})
             vlib.write_ndjson(pin2, pl)
             rc, out, prs2 = go_rows(ctx, pkg, run, {"VERIF_IN": pin2}, "c06_probe_pipe_life_out.ndjson")
             if rc != 0 or len(prs2) != len(again):
@@ -498,7 +504,8 @@ def part_trace(ctx, res, tally):
                 not_reproduced += 1
                 continue
             reproduced += 1
-            rec = {"lvl": lvl, "tab": ln["tab"], "table": ln["table"], "h": x["h"], "qt": x["qt"], "query": x["query"],
+            rec = {"lvl": lvl, "seed": ctx.seed, "tab": ln["tab"], "table": ln["table"], "h": x["h"], "qt": x["qt"],
+                   "query": x["query"],
                    "expect": b["exp"], "expected": pr.get("expected") or b["exp"], "got": pr.get("got"),
                    "hang": pr.get("hang", False),
                    "trace_observation": x}
@@ -506,6 +513,8 @@ def part_trace(ctx, res, tally):
                 rec["steps"] = ln.get("_steps")
             if ln.get("prev_table") is not None:
                 rec["prev_table"], rec["qs"] = ln["prev_table"], ln.get("prev_qs", [])
+            if ln.get("epoch") is not None:
+                rec["epoch"] = ln["epoch"]
             tally.report(ctx, rec, "trace (%s): %s %s observed %s, spec admits %s, table %s" % (
                 lvl, x["query"], x["qt"], json.dumps(pr.get("got")), json.dumps(pr.get("expected")), json.dumps(ln["table"])))
     if not_reproduced:
@@ -543,7 +552,8 @@ def run(ctx):
     # a disagreement can be the very reason a class was not observed).
     # cname-empty is exactly the open finding: it is never observed while that is open.
     seen = {c for c, n in res["pipe"]["classes"].items() if n}
-    need = {"pass", "cname-upstream", "cname-addresses", "addresses", "empty"}
+    need = {"cname-addresses", "addresses", "empty"} | {k + ":" + m for k in ("pass", "cname-upstream")
+                                                         for m in ("answer", "nodata", "nxdomain", "servfail")}
     if not ctx.violations and not need <= seen:
         raise vlib.Inconclusive("pipeline sample did not exercise: %s" % sorted(need - seen))
 
@@ -608,7 +618,14 @@ def replay(ctx, path):
     probe = {"tab": tab, "h": rec["h"], "qt": rec["qt"], "query": rec.get("query", "")}
     if rec.get("prev_table") is not None:
         probe["prev_table"], probe["qs"] = rec["prev_table"], rec.get("qs", [])
-    if "want" in rec:
+    if rec.get("epoch") is not None:
+        probe["epoch"] = rec["epoch"]
+    if rec.get("seed") is not None:
+        # The mock upstream's behaviour per name and the concrete addresses are seeded.
+        ctx.seed = rec["seed"]
+    if lvl == "pipe" and "expect" not in rec:
+        probe["expected"] = rec["expected"]
+    elif "want" in rec:
         probe["want"] = rec["want"]
     else:
         probe["expect"] = rec["expect"]
